@@ -213,6 +213,16 @@ def check(run, repo):
             av = {k: v for k, v in avail.items() if k in params(fn)[0] or k in ('T', 'P')}
             run_pair(run, I, sp, 'StatMech' + ('[S_elements]' if sel else ''), wname, tname, q, owner, fn, av,
                      unit_variants(rkeys, thorough and sel is None, per_mass=True), molw, counter)
+    # a second species with the same element symbols but other counts, evaluated after the first in the same
+    # session: per-mass values must use its own molar mass (nothing may be remembered from the previous species)
+    mH, mO = D.sym('mH'), D.sym('mO')
+    sp_b = Obj('sp', ci, attrs=dict(attrs, elements=DictV({'H': mH, 'O': mO})))
+    sel_opaque(sp_b)
+    molw_b = C(aw['H']) * mH + C(aw['O']) * mO
+    for wname, tname, q, owner, fn in wrappers_of(repo, ci):
+        av = {'T': D.sym('T'), 'P': D.sym('P')}
+        run_pair(run, I, sp_b, 'StatMech[second species, same elements]', wname, tname, q, owner, fn, av,
+                 ['J/g/K'], molw_b, counter)
     # the same species with references attached: every boolean option the wrapper shares with its twin is flipped,
     # one at a time, on both - an option that is consumed on the way (use_references, verbose, ...) shows
     refs = opaque_obj(I, 'refs', {m: ('descriptors', 'T') for m in methods})
